@@ -254,7 +254,7 @@ def ob_files_concrete():
         a = x
         bnd = x + 1.0 if x + 1.0 > x else x * 2
         tg.addTier(IntervalTier("i", [Interval(a, bnd, 'say "hi"\nthere = 1')], lo, hi))
-        tg.addTier(PointTier("p", [Point(x, 'q""')], lo, hi))
+        tg.addTier(PointTier("p", [Point(x, 'q""')], x, hi))  # a tier that starts a hair after its textgrid
         tg.addTier(IntervalTier("none", [], lo, hi))
         # sliver absorption is C04's subject: keep the default threshold unless the data has
         # an interval or gap shorter than it
@@ -269,6 +269,10 @@ def ob_files_concrete():
             for t, u in zip(tg.tiers, r.tiers):
                 if type(t) is not type(u):
                     return "tier type"
+                if fmt != "json":  # plain json keeps one span for the whole textgrid by design
+                    for p, q in ((u.minTimestamp, t.minTimestamp), (u.maxTimestamp, t.maxTimestamp)):
+                        if p != q and not (p == int(p) and abs(p - q) <= 1e-14 * max(abs(p), abs(q))):
+                            return "tier span bound %r came back as %r" % (q, p)
                 have = [tuple(z) for z in u.entries if z[-1] != ""]
                 want = [tuple(z) for z in t.entries]
                 if len(have) != len(want):
@@ -326,6 +330,7 @@ def obligations(tier):
         obs.append(ob_json_updown(2, 120))
         obs.append(ob_dict_object(2, 200))
         obs.append(C04.ob_spans(2, 200))
+        obs.append(C04.ob_spans(1, 300, blanks=True))
     else:
         obs.append(C04.ob_spans(3, 900))
         for w in ("interval", "point", "name"):
@@ -343,6 +348,7 @@ def obligations(tier):
     obs.append(numtok.ob_contract())
     guard(obs, "num-regex-writer", lambda: numtok.obs_regex("writer"), numtok.FN[1:2])
     guard(obs, "num-strtoint-writer", lambda: numtok.ob_strtoint("writer"), numtok.FN[2:3])
+    obs.append(numtok.ob_strtoint_concrete())
     obs.append(ob_files_concrete())
     guard(obs, "long-elements-concrete", lambda: ob_long_elements_concrete(), FUNCS[:2])
     obs.append(IO.ob_keywords_pass("C01"))
